@@ -238,8 +238,33 @@ def check_c_bound(acc, rng, flavor):
         d = rng.randrange(3)
         speed = rng.choice([1.0, 0.5, 2.0])
         c1, c2 = rng.choice([1.0, -1.0, 0.41, -0.82]), rng.choice([1.0, -1.0, 0.41])
+        cz = rng.random()
+        if cz < 0.04:
+            c1, c2 = rng.choice([(0.0, 1.0), (1.0, 0.0), (1e-200, 1e-200), (0.0, -0.82)])   # neutral unit: product exactly 0
+        elif cz < 0.08:
+            c1 = c1 * 10.0 ** rng.uniform(-25.0, -6.0)                                       # very weak interaction
         q = k * c1 * c2
         s, style = gen_separation(rng, L, d, None)
+        if q == 0.0:
+            # no interaction: no budget is ever used up, whatever the geometry (incl. exactly head-on)
+            vel = [0.0, 0.0, 0.0]
+            vel[d] = speed
+            budget = rng.choice([rng.expovariate(1.0), 5e-324, 1e-30, 1e3])
+            wit = {"kind": "c_bound", "prefactor": k, "L": L, "d": d, "speed": speed, "s": [x.hex() for x in s],
+                   "charges": [c1, c2], "budget": budget.hex(), "style": style, "bstyle": "zero_charge", "flavor": flavor}
+            acc.case(("c_bound", tuple(s), d, budget, q), nontrivial=True)
+            acc.count("calls")
+            acc.count("calls_c_bound_zero_charge_product")
+            try:
+                t = pot.displacement(vel, list(s), c1, c2, budget)
+            except Exception as e:
+                acc.violation(f"C02:c-bound-raises-{type(e).__name__}", f"C bound: s={s}, q=0, budget={budget!r}: {e}", wit)
+                continue
+            if t != INF:
+                acc.violation("C02:c-bound-zero-charge-product" if t != t else "C02:finite-although-path-never-accumulates-budget",
+                              f"C bound (L={L}): charges {c1, c2} (product 0, no interaction), s={s}, budget={budget!r}: "
+                              f"displacement = {t!r}, the path never accumulates any energy (inf)", wit)
+            continue
         per_lap = en.periodic_coulomb_per_lap(q, s, d, L)
         rho2 = sum(c * c for i, c in enumerate(s) if i != d)
         # thresholds: energy to the next turning point, one lap, several laps
@@ -254,7 +279,7 @@ def check_c_bound(acc, rng, flavor):
         if 0 < per_lap < INF and rng.random() < 0.12:
             # budgets worth 10^6 .. 10^13 box traversals (tiny charge products or huge budgets): the lap count leaves the
             # range of 32-bit integers, the distance stays an ordinary double
-            budget, bstyle = per_lap * 10.0 ** rng.uniform(6.0, 13.0), "many_laps"
+            budget, bstyle = per_lap * 10.0 ** rng.uniform(6.0, rng.choice([13.0, 30.0])), "many_laps"
         vel = [0.0, 0.0, 0.0]
         vel[d] = speed
         wit = {"kind": "c_bound", "prefactor": k, "L": L, "d": d, "speed": speed, "s": [x.hex() for x in s],
@@ -292,6 +317,8 @@ def check_c_bound(acc, rng, flavor):
                 acc.count("many_lap_bounds_checked")
                 if laps >= 2.0 ** 31:
                     acc.count("many_lap_bounds_checked_beyond_2^31_laps")
+                if laps >= 2.0 ** 63:
+                    acc.count("many_lap_bounds_checked_beyond_2^63_laps")
                 if not ((laps - 2.0) * L * (1 - 1e-9) <= x <= (laps + 2.0) * L * (1 + 1e-9)):
                     acc.violation("C02:inversion-identity",
                                   f"C bound (L={L}, q={q!r}): s={s}, budget={budget!r} pays for {laps!r} box traversals (per lap "
@@ -300,13 +327,24 @@ def check_c_bound(acc, rng, flavor):
         e_d, sc = en.periodic_coulomb_uphill(q, s, d, L, max(x, 0.0))
         if not (e_d < INF and sc < INF):
             acc.count("ill_conditioned_totality_only")
-            if rho2 == 0.0 and q > 0 and s[d] > 0 and x >= s[d]:
+            # (the pair stops at r* = q / (budget + q / s_d); a weak pair stops closer to the singularity than the distance
+            # itself resolves, then x == s_d is the correctly rounded answer)
+            if rho2 == 0.0 and q > 0 and s[d] > 0 and x >= s[d] and q / (budget + q / s[d]) > 4 * math.ulp(s[d]):
                 acc.violation("C02:inversion-identity", f"C bound (L={L}, q={q!r}): head-on repulsive pair s={s}, finite budget "
                                                         f"{budget!r}, but the returned distance {x!r} reaches the singularity", wit)
             continue
         tol = 1e-9 * (budget + sc * (1 + (budget / per_lap if per_lap < INF else 0.0)))
         if rho2 == 0.0:
             acc.count("identity_checked_head_on")
+        if abs(e_d - budget) > tol:
+            # the returned distance resolves 1 ulp: next to the singularity of a weak pair that is a large step in energy;
+            # the identity holds if the budget is bracketed by the energies 8 ulp before and after the returned distance
+            h = 8 * math.ulp(max(x, L))
+            e_lo = en.periodic_coulomb_uphill(q, s, d, L, max(x - h, 0.0))[0]
+            e_hi = en.periodic_coulomb_uphill(q, s, d, L, x + h)[0]
+            if e_lo - tol <= budget <= e_hi + tol:
+                acc.count("identity_checked_by_position_bracket")
+                continue
         if abs(e_d - budget) > tol:
             acc.violation("C02:inversion-identity",
                           f"C bound (L={L}, q={q!r}): displacement(v={vel}, s={s}, budget={budget!r}) -> distance {x!r}; "
